@@ -10,13 +10,32 @@ def f(n, grouping, desc=12, timeout=1500, file_uri=0):
     h.bounds = dict(frames=n, image_bytes=8, description_length=desc, uri="a | file://a")
     return h
 
+def fstep(timeout=1500):
+    h = f(1, 1, timeout=timeout)
+    h.name = "tiff_frame_step"
+    h.defines.append("FRAME_STEP=1")
+    h.what = "per-frame induction step: after start the end-of-data offset of the file is ARBITRARY (16..2^62, so files beyond 4 GiB); one more frame: directory at the next 8-byte boundary, strip/description/next link laid out after it without overlap, link of the new directory terminated at stop"
+    h.bounds = dict(end_offset="16..2^62", frames=1)
+    return h
+
+def fc(n, grouping, desc=12, timeout=1500):
+    fsz = 16 + n * (8 + 320 + 8 + 8 + 8 + ((desc + 8) // 8) * 8 + 16) + 64
+    h = tc.tiff_h(H, VERIF, "tiffjson_file_N%d_g%d" % (n, grouping), ["MODE=15", "NFRAMES=%d" % n, "GROUPING=%d" % grouping, "DESC=%d" % desc, "FILE_URI=0"],
+                  unwind=max(18, n + 2), timeout=timeout, unwindset={"file_write.0": fsz + 1}, composite=True)
+    h.what = "tiff-json composite: side_by_side_tiff_init/append/stop/destroy (clang IR -> C) around the translated tiff writer; set/start modelled by hand after the source (guarded by a source-text check); %d frame(s); same streaming reader on data.tif; metadata.json written and closed" % n
+    h.bounds = dict(frames=n, image_bytes=8, metadata="absent or {}")
+    return h
+
 def harnesses(tier, findings):
+    if tier == "composite":
+        a = fc(1, 1, timeout=2400); a.solver = "kissat"
+        return [a]
     if tier == "probe":
         a = f(1, 1); a.solver = "kissat"; a.name += "_kissat"; a.timeout = 900
         return [a, f(1, 1, timeout=900)]
     if tier == "quick":
-        return [f(1, 1), f(1, 1, file_uri=1)]
-    return [f(1, 1), f(2, 1, timeout=3000), f(2, 2, timeout=3000), f(1, 1, desc=30, timeout=3000)]
+        return [f(1, 1), f(1, 1, file_uri=1), fstep()]
+    return [f(1, 1), f(1, 1, file_uri=1), f(2, 1, timeout=3000), f(2, 2, timeout=3000), f(1, 1, desc=30, timeout=3000), fstep(3000)]
 
 META = dict(
     level="model_checking",
